@@ -532,7 +532,9 @@ def run(rep, ctx):
         sv = ncalls(f, "set_result_var")
         nb = ncalls(f, "narrow_result_bounds")
         def gtxt(c):
-            return " ".join(("" if pol else "!") + norm(render(f.nodes[cid])) for cid, pol in f.cfg.facts_at(c))
+            # branch facts in canonical form (inverted tests and early returns give the same facts), `rhs` named or not
+            return " ".join(("" if pol else "!") + _re.sub(r"\(mp::[^)]*\)this->GetModel\(\)\.", "m.", t_).replace("c.GetConstraint().", "con.").replace("con.rhs()", "rhs").replace("con.GetBody()", "body")
+                            for t_, pol in norm_facts(f, c, canon=True))
         ok = len(sv) == 2 and len(nb) == 1
         if ok:
             a0, a1 = sorted(sv, key=lambda c: c["i"])
